@@ -275,7 +275,7 @@ def close(a, b, rel=2e-10, ab=1e-12):
 def check(run, replay=None):
     tier, seed = run.tier, run.seed
     rng = random.Random(seed * 1000003 + 1)
-    C.standard_coq_phase(run, CID, gens=("ops",))
+    C.standard_coq_phase(run, CID, gens=("ops", "active"))
     ok, msg = C.ensure_ocaml()
     if not ok:
         run.finding("build:c01", "broken-obligation", "cannot build the model driver: " + msg[-600:], {})
